@@ -188,6 +188,10 @@ pub fn run_plan(b: u64, plan: &Value, seed: u64, out: &mut Out) -> (u64, bool) {
         }
         let i = *counter2.borrow();
         *counter2.borrow_mut() += 1;
+        // two late replies in a row: the first one (dropped, as it should be) still leaves its mark on the round-trip estimate
+        if fkind == "late2" && (i == fidx || i == fidx + 1) {
+            return Reply::One(base, if i == fidx { 620 } else { 1250 });
+        }
         if i == fidx {
             match fkind.as_str() {
                 "drop" => return Reply::Silent,
@@ -255,6 +259,7 @@ pub fn run_plan(b: u64, plan: &Value, seed: u64, out: &mut Out) -> (u64, bool) {
     sim.tick_log.clear();
     let end_ns = if long > 0 { t0 + long * 60_000 * MS } else { t0 + (at.last().cloned().unwrap_or(0) + 6000) * MS };
 
+    let pre_timeout = std::cell::Cell::new(500 * MS);
     let mut emit = |sim: &mut Sim, calls: &mut Vec<Option<Call>>, called: &Vec<String>, reqs: &mut HashMap<u32, (SocketAddrV4, String, u64)>, log_pos: &mut usize,
                     step: Value, prev_live_empty: &mut bool, out: &mut Out| {
         while *log_pos < sim.log.len() {
@@ -372,7 +377,13 @@ pub fn run_plan(b: u64, plan: &Value, seed: u64, out: &mut Out) -> (u64, bool) {
             "last_refresh": ms_of(now - s.last_table_refresh_age_ns), "last_ping": ms_of(now - s.last_table_ping_age_ns), "server": s.server_mode,
             "called": called, "done": Value::Object(done), "got": Value::Object(got),
         });
-        let expired: Vec<u32> = reqs.iter().filter(|(_, (_, _, sent))| now - *sent >= timeout).map(|(t, _)| *t).collect();
+        // expiry is judged with the request timeout in force: for the request the incoming message answers, the timeout BEFORE
+        // this tick (the sample this very message contributes to the round-trip estimate must not decide about its own
+        // acceptance); for every other request the timeout after it (what the liveness checks at the end of the tick used)
+        let pre = pre_timeout.get();
+        pre_timeout.set(timeout);
+        let in_tid: Option<u32> = step["input"]["tid"].as_i64().filter(|t| *t >= 0).map(|t| t as u32);
+        let expired: Vec<u32> = reqs.iter().filter(|(t, (_, _, sent))| now - *sent >= if Some(**t) == in_tid { pre } else { timeout }).map(|(t, _)| *t).collect();
         let mut line = step;
         line["b"] = json!(b);
         line["t_ms"] = json!(ms_of(now));
@@ -513,7 +524,12 @@ pub fn run(args: &Args) -> i32 {
         let cross = plan["store"].as_str().map(|s| s.contains("A_")).unwrap_or(false) || plan["ghost"].as_bool().unwrap_or(false);
         // long plans with a second call minutes after the first (token staleness of the cached lookup) always run
         let repub = plan["long"].as_u64().unwrap_or(0) > 0 && plan["gaps"].as_array().map(|g| g.iter().any(|x| x.as_u64().unwrap_or(0) >= 200_000)).unwrap_or(false);
-        let pm = if repub { 1000 } else if plan["long"].as_u64().unwrap_or(0) > 0 { long_permille } else if has_silent || cross { silent_permille } else { permille };
+        // a second call while the first put is held IN FLIGHT by a storing peer that never answers the write (nobody holds
+        // anything: one representative of the hold dimension) always runs
+        let inflight = plan["store"] == "drop_p1" && plan["long"].as_u64().unwrap_or(0) == 0 && plan["calls"].as_array().map(|c| c.len() >= 2).unwrap_or(false)
+            && plan["gaps"].as_array().map(|g| g.iter().any(|x| x.as_u64() == Some(400))).unwrap_or(false)
+            && plan["hold"]["a"] == 0 && plan["hold"]["b"] == false && !has_silent;
+        let pm = if repub || inflight { 1000 } else if plan["long"].as_u64().unwrap_or(0) > 0 { long_permille } else if has_silent || cross { silent_permille } else { permille };
         let take = only.map(|o| o == b).unwrap_or_else(|| pm >= 1000 || rng.below(1000) < pm);
         if take {
             let (n, _) = run_plan(b, plan, seed, &mut out);
